@@ -194,37 +194,38 @@ Definition target_json (st : storev) (c : config) (s : sel) : option json :=
 
 (* ---------- the annotation ---------- *)
 
+(* the members before "target" *)
+Definition pre_members (c : config) (av : annv) : list (str * json) :=
+  let iri := match a_id av with Some i => Some (into_iri i (c_ann_iri c)) | None => None end in
+  let mains := filter is_main (a_data av) in
+  let bodyd := filter (fun d => negb (is_main d)) (a_data av) in
+  [(LIT "@context", context_json c)]
+  ++ (match iri with Some i => [(LIT "id", JStr i)] | None => [] end)
+  ++ [(LIT "type", JStr (LIT "Annotation"))]
+  ++ map (member_of c) mains
+  ++ (match c_generated c with
+      | Some now => if has_anno_key (LIT "generated") (a_data av) then [] else [(LIT "generated", JStr now)]
+      | None => []
+      end)
+  ++ (if c_generator c && negb (has_anno_key (LIT "generator") (a_data av))
+      then [(LIT "generator", generator_json)] else [])
+  ++ (if is_nil bodyd then []
+      else [(LIT "body",
+             JObj ((if has_anno_key (LIT "type") bodyd then [] else [(LIT "type", JStr (LIT "Dataset"))])
+                   ++ (if has_anno_key (LIT "id") bodyd then []
+                       else match iri with
+                            | Some i => [(LIT "id", JStr (i ++ LIT "/body"))]
+                            | None => []
+                            end)
+                   ++ map (member_of c) bodyd))]).
+
 Definition export_ast (st : storev) (c : config) (a : nat) : option json :=
   match get_ann st a with
   | None => None
   | Some av =>
       match target_json st c (a_target av) with
       | None => None
-      | Some tj =>
-          let iri := match a_id av with Some i => Some (into_iri i (c_ann_iri c)) | None => None end in
-          let mains := filter is_main (a_data av) in
-          let bodyd := filter (fun d => negb (is_main d)) (a_data av) in
-          Some (JObj (
-            [(LIT "@context", context_json c)]
-            ++ (match iri with Some i => [(LIT "id", JStr i)] | None => [] end)
-            ++ [(LIT "type", JStr (LIT "Annotation"))]
-            ++ map (member_of c) mains
-            ++ (match c_generated c with
-                | Some now => if has_anno_key (LIT "generated") (a_data av) then [] else [(LIT "generated", JStr now)]
-                | None => []
-                end)
-            ++ (if c_generator c && negb (has_anno_key (LIT "generator") (a_data av))
-                then [(LIT "generator", generator_json)] else [])
-            ++ (if is_nil bodyd then []
-                else [(LIT "body",
-                       JObj ((if has_anno_key (LIT "type") bodyd then [] else [(LIT "type", JStr (LIT "Dataset"))])
-                             ++ (if has_anno_key (LIT "id") bodyd then []
-                                 else match iri with
-                                      | Some i => [(LIT "id", JStr (i ++ LIT "/body"))]
-                                      | None => []
-                                      end)
-                             ++ map (member_of c) bodyd))])
-            ++ [(LIT "target", tj)]))
+      | Some tj => Some (JObj (pre_members c av ++ [(LIT "target", tj)]))
       end
   end.
 
@@ -310,6 +311,15 @@ Fixpoint no_nested_unexportable (s : sel) : bool :=
   | _ => true
   end.
 
+(* store invariant: an internal ranged selector covers at least one handle *)
+Fixpoint ranges_ok (s : sel) : bool :=
+  match s with
+  | SRTxt _ b e => Nat.leb b e
+  | SRAnn b e _ => Nat.leb b e
+  | SMulti l | SComp l | SDir l => forallb ranges_ok l
+  | _ => true
+  end.
+
 (* class 5: a target annotation without public identifier *)
 Definition ann_has_id (st : storev) (a : nat) : bool :=
   match get_ann st a with Some av => is_some (a_id av) | None => false end.
@@ -329,3 +339,67 @@ Fixpoint targets_named (st : storev) (s : sel) : bool :=
 (* the exporter takes the annotation: it does not return the empty string *)
 Definition accepted (av : annv) : bool :=
   match a_target av with SKey | SData => false | _ => true end.
+
+Definition value_ok (d : datum) : bool := value_finite (d_val d) && value_dates_plain (d_val d).
+
+(* ---------- classes of known findings (inputs on which the code as it is fails the property) ---------- *)
+
+Definition Known_C17_nonfinite (av : annv) : bool :=
+  negb (forallb (fun d => value_finite (d_val d)) (a_data av)).
+Definition Known_C17_config_chars (c : config) : bool := negb (cfg_plain c).
+Definition Known_C17_nested_unexportable (av : annv) : bool :=
+  accepted av && negb (no_nested_unexportable (a_target av)).
+Definition Known_C17_anonymous_target (st : storev) (av : annv) : bool :=
+  negb (targets_named st (a_target av)).
+(* Known_C17_duplicate_names is about the tree as a JSON reader sees it: see has_dup_keys below *)
+
+(* ---------- a JSON tree as a consumer sees it ---------- *)
+
+Fixpoint str_ltb (a b : str) : bool :=
+  match a, b with
+  | [], [] => false
+  | [], _ :: _ => true
+  | _ :: _, [] => false
+  | x :: a', y :: b' => (x <? y)%N || ((x =? y)%N && str_ltb a' b')
+  end.
+
+(* members sorted by name; per name the values in document order *)
+Fixpoint ins_member (k : str) (v : json) (m : list (str * list json)) : list (str * list json) :=
+  match m with
+  | [] => [(k, [v])]
+  | (k', vs) :: r =>
+      if str_eqb k k' then (k', vs ++ [v]) :: r
+      else if str_ltb k k' then (k, [v]) :: m
+      else (k', vs) :: ins_member k v r
+  end.
+
+Definition group_members (m : list (str * json)) : list (str * list json) :=
+  fold_left (fun acc kv => ins_member (fst kv) (snd kv) acc) m [].
+
+(* grouped = false: the last of several members with one name wins (serde_json, and most readers);
+   grouped = true: several values of one name are one array (what JSON-LD wants) *)
+Fixpoint norm (grouped : bool) (j : json) : json :=
+  match j with
+  | JArr l => JArr (map (norm grouped) l)
+  | JObj m =>
+      JObj (map (fun kvs =>
+                   (fst kvs,
+                    match snd kvs with
+                    | [v] => v
+                    | vs => if grouped then JArr vs else last vs JNull
+                    end))
+                (group_members (map (fun kv => (fst kv, norm grouped (snd kv))) m)))
+  | _ => j
+  end.
+
+Fixpoint has_dup_keys (j : json) : bool :=
+  match j with
+  | JArr l => existsb has_dup_keys l
+  | JObj m =>
+      existsb (fun kv => has_dup_keys (snd kv)) m
+      || existsb (fun kvs => match snd kvs with [_] => false | _ => true end) (group_members m)
+  | _ => false
+  end.
+
+Definition Known_C17_duplicate_names (st : storev) (c : config) (a : nat) : bool :=
+  match export_ast st c a with Some j => has_dup_keys j | None => false end.
